@@ -39,11 +39,13 @@ class CallGraph:
             self._scan(fn)
 
     # ------------------------------------------------------------------
-    def resolve_callable(self, fn: FuncInfo, expr: ast.AST) -> list[FuncInfo]:
+    def resolve_callable(self, fn: FuncInfo, expr: ast.AST, _depth: int = 0) -> list[FuncInfo]:
         """Functions that `expr` (used as a callable value) may denote."""
         prog = self.prog
+        if _depth > 6:
+            return []
         if isinstance(expr, ast.Call) and dotted(expr.func) in ("functools.partial", "partial") and expr.args:
-            return self.resolve_callable(fn, expr.args[0])
+            return self.resolve_callable(fn, expr.args[0], _depth + 1)
         if isinstance(expr, ast.Name):
             q = prog.resolve_name(fn.module, expr.id, fn)
             if q in prog.functions:
@@ -72,7 +74,7 @@ class CallGraph:
                     if isinstance(n.value, (ast.Name, ast.Call, ast.Attribute)) and n.value is not expr:
                         if isinstance(n.value, ast.Call) and dotted(n.value.func) not in ("functools.partial", "partial"):
                             continue
-                        r = self.resolve_callable(fn, n.value)
+                        r = self.resolve_callable(fn, n.value, _depth + 1)
                         if r:
                             return r
             return []
